@@ -409,7 +409,14 @@ where
     fn create<T: ObjectWrite>(&mut self, obj: T) -> Result<RcRef<T>> {
         let id = self.refs.len() as u64;
         self.refs.push(XRef::Promised);
-        let primitive = obj.to_primitive(self)?;
+        let primitive = match obj.to_primitive(self) {
+            Ok(primitive) => primitive,
+            Err(e) => {
+                // the number stays unused: a free entry, not a promise nobody can fulfil (which would make every later save fail)
+                self.refs.set(id, XRef::Free { next_obj_nr: 0, gen_nr: 0 });
+                return Err(e);
+            }
+        };
         self.changes.insert(id, (primitive, 0));
         let rc = Shared::new(obj);
         let r = PlainRef { id, gen: 0 };
